@@ -362,8 +362,62 @@ def rule_R09_3(ctx):
     return r
 
 
+def rule_R09_4(ctx):
+    import re
+    prog = ctx.prog
+    r = RuleResult("R09.4", "evaluation never looks anything up by source "
+                   "position: no table in the evaluator is keyed by line/"
+                   "column, and interpolation slots are parsed from their own text",
+                   "a position-keyed table makes behaviour depend on layout "
+                   "(moving a line changes which entry is hit)")
+    n = 0
+    for f in prog.hand_fns():
+        if f.from_expansion or not f.module.startswith("eval"):
+            continue
+        for c in f.calls():
+            if c.is_ptr:
+                continue
+            full = c.res_full or ""
+            m = re.match(r"std::collections::(HashMap|BTreeMap|HashSet|BTreeSet)::<(.*)>::(get|insert|entry|contains_key|contains|get_mut|remove)\b", full)
+            if not m:
+                continue
+            n += 1
+            inner = m.group(2)
+            # key type = first generic argument
+            depth = 0
+            key = ""
+            for ch in inner:
+                if ch in "<(":
+                    depth += 1
+                elif ch in ">)":
+                    depth -= 1
+                if ch == "," and depth == 0:
+                    break
+                key += ch
+            if re.search(r"\busize\b", key):
+                r.fail("%s | table keyed by %s" % (f.path, key.strip()[:40]),
+                       "%s uses a table keyed by %s, i.e. by source "
+                       "positions/offsets: evaluation can depend on layout"
+                       % (f.path, key.strip()), where=c.loc)
+            else:
+                r.ok()
+    r.inst("map/set accesses in the evaluator: %d (keys are names)" % n)
+    r.require_floor("map accesses in the evaluator", n, 5)
+    import c15
+    r3 = c15.rule_R15_3(ctx)
+    for v in r3.violations:
+        v.rule = "R09.4"
+        v.key = v.key.replace("R15.3", "R09.4", 1)
+        r.violations.append(v)
+        r.obligations += 1
+    r.obligations += r3.discharged
+    r.discharged += r3.discharged
+    r.instances.extend(r3.instances)
+    return r
+
+
 def run(ctx):
-    return [rule_R09_1(ctx), rule_R09_2(ctx), rule_R09_3(ctx)]
+    return [rule_R09_1(ctx), rule_R09_2(ctx), rule_R09_3(ctx), rule_R09_4(ctx)]
 
 
 META = {
